@@ -153,6 +153,9 @@ type RedisSpec struct {
 	LatUs   [2]int64   `json:"lat_us"`
 	DownUs  [][2]int64 `json:"down_us,omitempty"`  // [from,to) windows without answers
 	FlushUs []int64    `json:"flush_us,omitempty"` // restarts that lose all data
+	// SlowGetUs: GET commands take this long (a busy server, a large value)
+	// while PING and SET stay fast - the client still counts as connected.
+	SlowGetUs [2]int64 `json:"slow_get_us,omitempty"`
 }
 
 type RangeSpec struct {
@@ -181,6 +184,10 @@ type ClientConn struct {
 	PlainAfterFail bool `json:"plain_after_fail,omitempty"`
 	HTTP2          bool `json:"http2,omitempty"`
 	Coalesce       bool `json:"coalesce,omitempty"` // stream clients: write all frames whose time has come in one Write
+	// Straddle: every write ends inside a frame: the last octets of a query
+	// are held back and sent together with the head of the next one (the
+	// final tail follows a second after the last query).
+	Straddle bool `json:"straddle,omitempty"`
 	// AltDst: send to the proxy's second address of the family (a wildcard
 	// UDP listener with multi_routes has to answer from that address).
 	AltDst bool `json:"alt_dst,omitempty"`
@@ -246,12 +253,12 @@ type AnswerSpec struct {
 	Shape string   `json:"shape"` // plain | binary | suffix | srv | big | unknown | mixed
 	PadTo int      `json:"pad_to,omitempty"`
 	// MaxNames: the name pool also holds names of exactly 255 and 254 octets.
-	MaxNames bool   `json:"max_names,omitempty"`
+	MaxNames bool `json:"max_names,omitempty"`
 	// Nested: the name pool holds a chain of names each of which is the
 	// previous one with another label in front (12-16 of them): written with
 	// full suffix sharing, the last one is reached through as many pointers.
-	Nested bool `json:"nested,omitempty"`
-	OPT      *UpOPT `json:"opt,omitempty"`
+	Nested bool   `json:"nested,omitempty"`
+	OPT    *UpOPT `json:"opt,omitempty"`
 	// Compress: how the server lays the reply out: 0 none, 1 owners, 2 owners+rdata, 3 +srv
 	Compress int `json:"compress"`
 }
@@ -289,6 +296,9 @@ type NetSpec struct {
 	// Connect faults by upstream tag: refuse | blackhole
 	Connect    map[string]string `json:"connect,omitempty"`
 	Partitions []Partition       `json:"partitions,omitempty"`
+	// ICMP: a datagram to a port nobody listens on bounces "connection
+	// refused" to a connected sender (port unreachable).
+	ICMP bool `json:"icmp,omitempty"`
 }
 
 type Partition struct {
@@ -343,6 +353,8 @@ type ServerEvent struct {
 	Up   int    `json:"up"`
 	AtUs int64  `json:"at_us"`
 	Kind string `json:"kind"`
+	// DownMs (kind "down"): the server stops listening for this long.
+	DownMs int `json:"down_ms,omitempty"`
 }
 
 // ---- limiter family ----
